@@ -14,17 +14,22 @@ COQ_SHARD = 150
 DESIGN_REF = "§5 C14"
 TECHNIQUE = ("Coq proof at dictionary level (every algorithm is a walk over two key-ordered streams; one generic lemma gives its key-wise meaning) "
              "+ in-Coq correspondence against tree.ThreeWayDiffer and prolly.MergeMaps with a recording collision handler")
-LEVEL_TEXT = ("Proof (F/P): for every strictly sorted base/left/right and every collision handler, the three-way differ classifies each key per the "
+LEVEL_TEXT = ("Proof (F/M): for every strictly sorted base/left/right and every collision handler, the three-way differ classifies each key per the "
               "declarative rule and calls the handler on exactly the divergent keys (three_way_differ_spec, three_way_calls_spec); the patch merge "
-              "(right-vs-base patches applied onto left) yields the key-wise merge function (patch_merge_spec); both routes call the handler "
-              "identically (calls_agree) and, for handlers that resolve a divergent delete to 'deleted', give the same map (patch_merge_eq_differ). "
-              "Partial: range (chunk-level) patches are modelled by the point changes they stand for — that PatchGenerator's range patches have "
-              "exactly that meaning rests on the correspondence (multi-chunk cases, whole chunks added/removed); canonical shape of the result is "
-              "C12's theorem plus the observed root-hash comparison.")
-LEVEL_NOTE = ("Trusted: Coq kernel, Go harness + Python glue. Modelled, not verified: PatchGenerator cursor juggling (range patches, split), "
-              "tuple byte comparison (values are numbers).")
+              "yields the key-wise merge function (patch_merge_spec); both routes call the handler identically (calls_agree) and, for handlers that "
+              "resolve a divergent delete to 'deleted', give the same map (patch_merge_eq_differ). Range (chunk-level) patches: every stream of "
+              "patches in which each range patch carries exactly the right map's entries of its range and the left side changed nothing in that "
+              "range, and which covers every point change, applied to the left map gives the same merged map - however ranges were chosen and "
+              "split (range_patches_sound, range_patch_is_its_points). That the REAL stream satisfies these two conditions is checked on every "
+              "recorded stream of tree.SendPatches (stream_okb), together with apply_stream(stream) = result. oracle_on_model: the executable "
+              "statement holds on the model's observation for every input and every handler mode. Partial: PatchGenerator's cursor code itself "
+              "is not modelled (its output is validated per run); canonical shape of the result is C12's theorem plus the observed root hash.")
+LEVEL_NOTE = ("Trusted: Coq kernel, Go harness + Python glue. Modelled, not verified: PatchGenerator / SendPatches cursor juggling (their emitted "
+              "stream is recorded and checked against patch_ok + coverage each run), ApplyPatches' single pass (modelled as the patches applied in "
+              "sequence), tuple byte comparison (values are numbers).")
 THEOREMS = ["three_way_differ_spec", "three_way_calls_spec", "send_calls_spec", "calls_agree", "patch_merge_spec", "differ_merge_spec",
-            "patch_merge_eq_differ", "walk_lookup", "sorted_ext"]
+            "patch_merge_eq_differ", "range_patches_sound", "range_patch_is_its_points", "oracle_on_model", "collide_mode_delete",
+            "walk_lookup", "sorted_ext"]
 RULE = ("(base,left,right) built per key from the 13 change patterns (unchanged, one-sided add/modify/delete, convergent, divergent modify/modify, "
         "delete/modify, modify/delete, add/add) with block edits that add or remove whole chunks, empty sides, 5 handler behaviours; "
         "non-trivial = at least one key changed on the right")
